@@ -153,22 +153,35 @@ def r07_2_3(ctx: Ctx):
     ctx.floor(rid, 'levels of the forward descent analysed', n_levels, 6)
     # R07.3 radix
     init = e.cls.methods['__init__']
-    exi = ctx.explorer(unroll=2)
+    # helpers of the class / module the constructor delegates to (a static CountNodes(N)) are looked through
+    exi = ctx.explorer(unroll=2, inline=lambda f, st: f.name != '__init__' and
+                       (f.cls is e.cls or (f.cls is None and f.module is e.cls.module)))
     vals = {}
+    selfk = key_of(var(init.param_names[0]))
+    n_loops = set()
     for p in C.normal_paths(exi.explore(init)):
-        k = sum(1 for ev in p.events if ev.kind == 'iter' and ev.depth == 0)
-        v = p.state.heap.get((key_of(var(init.param_names[0])), Bf))
+        nval = p.state.heap.get((selfk, 'numberOfFloatVariables'))
+        nk = key_of(nval) if nval is not None else None
+
+        def over_n(ev) -> bool:
+            # a loop over range(N) / range(0, N)
+            va = ev.d['var'].single_atom() if isinstance(ev.d.get('var'), RF) else None
+            src = va[3] if isinstance(va, tuple) and len(va) == 4 and va[0] == 'iter' else None
+            if not (isinstance(src, tuple) and src and src[0] == 'range'):
+                return False
+            if len(src) == 2:
+                return src[1] == nk
+            return len(src) == 3 and src[2] == nk and src[1] == key_of(RF.const(0))
+        its = [ev for ev in p.events if ev.kind == 'iter' and over_n(ev)]
+        n_loops |= {id(ev.node) for ev in its}
+        k = len(its)
+        v = p.state.heap.get((selfk, Bf))
         vals[k] = v
     ok = all(isinstance(v, RF) and v.const_value() == 2 ** k for k, v in vals.items()) and len(vals) >= 3
     ctx.check(ok, 'R07.3', init.short, init.loc(), f'after k trips of the constructor loop {Bf} = 2^k (k = 0, 1, 2)',
               f'{Bf} is not doubled once per trip starting from 1: values after 0,1,2 trips are '
               f'{[C.fmt(vals[k]) for k in sorted(vals)]}', key=f'R07.3::{init.short}::doubling')
-    loops = [n for n in init.node.body if isinstance(n, ast.For)]
-    okl = len(loops) == 1 and isinstance(loops[0].iter, ast.Call) and isinstance(loops[0].iter.func, ast.Name) and \
-        loops[0].iter.func.id == 'range' and isinstance(loops[0].iter.args[-1], ast.Attribute) and \
-        loops[0].iter.args[-1].attr == 'numberOfFloatVariables' and \
-        (len(loops[0].iter.args) == 1 or (isinstance(loops[0].iter.args[0], ast.Constant)
-                                          and loops[0].iter.args[0].value == 0))
+    okl = len(n_loops) == 1
     ctx.check(okl, 'R07.3', init.short, init.loc(), 'the doubling loop runs N times',
               'the radix is not doubled exactly N = numberOfFloatVariables times', key=f'R07.3::{init.short}::n-trips')
     roles = C.roles_of(ctx)
